@@ -74,7 +74,13 @@ Fixpoint tp_tokens (alloc : tokens) (t : tpath) : result tokens :=
   | TPrim p => prim_tokens alloc p
   | TCompact inner is_field cpath =>
       let* i := tp_tokens alloc inner in
-      if is_field then Ok i else Ok (cpath ++ ["<"] ++ i ++ [">"])
+      (* [parse_quote!( #inner )] into a [syn::TypePath] panics on a tuple / array *)
+      if is_field then
+        match inner with
+        | TTuple _ | TArray _ _ => Panic "compact field: inner type is not a type path"
+        | _ => Ok i
+        end
+      else Ok (cpath ++ ["<"] ++ i ++ [">"])
   | TBitVec order store bpath =>
       let* o := tp_tokens alloc order in
       let* s := tp_tokens alloc store in
